@@ -494,6 +494,9 @@ func TestTaint(t *testing.T) {
 		}
 		return c.Render("t", fiber.Map{"own": tok, "obs": strings.Join(obs, "\n")})
 	})
+	// files: one that exists and one that does not, served with the same options (one handler of the app's file cache)
+	app.Get("/f/:tok", func(c fiber.Ctx) error { return c.SendFile(assetPath) })
+	app.Get("/f404/:tok", func(c fiber.Ctx) error { return c.SendFile(assetPath + ".does-not-exist") })
 	ln := fasthttputil.NewInmemoryListener()
 	go func() { _ = app.Listener(ln, fiber.ListenConfig{DisableStartupMessage: true}) }()
 	defer func() { _ = app.Shutdown() }()
@@ -582,6 +585,23 @@ func TestTaint(t *testing.T) {
 			defer wg.Done()
 			for i := 0; i < perWorker; i++ {
 				tok := fmt.Sprintf("T%dx%dT", 1000+g, i)
+				if i%6 == 1 || i%6 == 4 {
+					// a file request in between: a missing file is this request's 404 and nobody else's
+					var freq fasthttp.Request
+					want := 200
+					freq.SetRequestURI("/f/" + tok)
+					if i%6 == 4 {
+						want = 404
+						freq.SetRequestURI("/f404/" + tok)
+					}
+					ff := &fasthttp.RequestCtx{}
+					ff.Init(&freq, &net.TCPAddr{IP: net.IPv4(10, 0, 0, 9), Port: 1234}, nil)
+					h(ff)
+					if got := ff.Response.StatusCode(); got != want {
+						atomic.AddInt64(&bad, 1)
+						first.CompareAndSwap(nil, fmt.Sprintf("file request %s (dispatched in process next to %d others) answered %d, want %d", freq.URI().Path(), workers-1, got, want))
+					}
+				}
 				var req fasthttp.Request
 				req.Header.SetMethod("POST")
 				req.SetRequestURI("/t/" + tok + "?a=Q" + tok)
@@ -591,6 +611,10 @@ func TestTaint(t *testing.T) {
 				h(fctx)
 				all := string(fctx.Response.Header.Peek("X-Own")) + "|" + string(fctx.Response.Header.Peek("Content-Disposition")) + "|" + string(fctx.Response.Header.Peek("Link")) + "|" + string(fctx.Response.Body())
 				atomic.AddInt64(&total, 1)
+				if st := fctx.Response.StatusCode(); st != 200 {
+					atomic.AddInt64(&bad, 1)
+					first.CompareAndSwap(nil, fmt.Sprintf("request %s (dispatched in process next to %d others) answered %d, its handler rendered a page (200)", tok, workers-1, st))
+				}
 				for _, cand := range tokRe.FindAllString(all, -1) {
 					if cand != tok {
 						atomic.AddInt64(&bad, 1)
